@@ -59,6 +59,13 @@ pub fn convert_grammar_functions_to_semantic_functions(
         }
 
         if let Some(index) = index {
+            if index < output.len() {
+                anyhow::bail!(
+                    "vftable function `{}` has index {index}, but {} functions already precede it",
+                    function.name,
+                    output.len()
+                );
+            }
             make_padding_functions(&mut output, index);
         }
         let function = function::build(type_registry, &module.scope(), true, function)
@@ -68,6 +75,12 @@ pub fn convert_grammar_functions_to_semantic_functions(
 
     // Pad out to target size
     if let Some(size) = size {
+        if size < output.len() {
+            anyhow::bail!(
+                "vftable has {} functions, which is more than its declared size {size}",
+                output.len()
+            );
+        }
         make_padding_functions(&mut output, size);
     }
 
